@@ -8,7 +8,10 @@ average::define_histogram!(h1, 1);
 average::define_histogram!(h2, 2);
 average::define_histogram!(h3, 3);
 average::define_histogram!(h4, 4);
-average::define_histogram!(h10, 10);
+/// LEN = 10 is the crate's own exported instantiation `average::Histogram10`
+mod h10 {
+    pub use average::Histogram10 as Histogram;
+}
 average::define_histogram!(h100, 100);
 
 pub const LENS: [usize; 6] = [1, 2, 3, 4, 10, 100];
